@@ -38,7 +38,8 @@ MODULES = [cluster_mod, core_mod, mcmc_mod, modes_mod, mutate_mod, resample_mod,
 
 
 class LocalGen:
-    """np.random.RandomState(seed) double: a private generator; never touches the global stream."""
+    """np.random.RandomState(seed) double: a private generator; never touches the global stream. It counts its draws, so that
+    a generator that outlives one operation (hidden state shared between fits / runs) is visible."""
 
     def __init__(self, owner, seed):
         self.owner = owner
@@ -46,9 +47,20 @@ class LocalGen:
             owner.unseeded_entropy.append("RandomState(None)")
             seed = 0
         self.rs = np.random.RandomState(int(seed) if not isinstance(seed, SymInt) else 4242)
+        self.draws = 0
+        self.epoch = owner.epoch
+        owner.local_gens.append(self)
 
     def __getattr__(self, name):
-        return getattr(self.rs, name)
+        attr = getattr(self.rs, name)
+        if callable(attr) and name in ("rand", "randn", "random", "random_sample", "choice", "gamma", "normal", "uniform", "randint", "permutation", "shuffle"):
+            def wrapped(*a, **k):
+                if self.epoch != self.owner.epoch and self.draws > 0:
+                    self.owner.stale_private_generator.append(f"RandomState seeded in operation {self.epoch} reused at position {self.draws} in operation {self.owner.epoch}")
+                self.draws += 1
+                return attr(*a, **k)
+            return wrapped
+        return attr
 
 
 class StreamStub:
@@ -61,6 +73,9 @@ class StreamStub:
         self.n_draws = 0
         self.seed_calls = []
         self.unseeded_entropy = []
+        self.local_gens = []
+        self.stale_private_generator = []
+        self.epoch = 0  # the harness bumps this between two library operations that must not share hidden random state
 
     def _adv(self):
         if self.first_draw_term is None:
@@ -164,6 +179,23 @@ def make_noreset(op):
                 h.predict(X)
             elif op == "systematic-resample":
                 tools_mod.systematic_resample(8, np.full(8, 1 / 8))
+            elif op == "hier-fit-twice":
+                for _ in range(2):
+                    stub.epoch += 1
+                    h = HierarchicalGaussianMixture(n_init=1, normalize=True)
+                    h.fit(X, w)
+            elif op.startswith("sampler-posterior"):
+                smp = Sampler(lambda u: u, lambda x: -0.5 * np.sum(((x - 0.5) / 0.1) ** 2, axis=1), n_dim=2, n_particles=32,
+                              vectorize=True, clustering=False, n_steps=1, n_max_steps=2, random_state=(11 if "seeded" in op else None))
+                smp._core._initialize_fresh()
+                for _ in range(3):
+                    smp.sample()
+                stub.term = stub.s_after_construction  # accessors must leave the stream a function of the stream before them
+                smp.posterior(resample=True)
+                smp.posterior()
+                smp.evidence()
+                smp.results()
+                return smp
             elif op.startswith("sampler-iterations"):
                 clustering = "-clustering" in op
                 smp = Sampler(lambda u: u, lambda x: -0.5 * np.sum(((x - 0.5) / 0.1) ** 2, axis=1), n_dim=2, n_particles=32,
@@ -189,6 +221,8 @@ def make_noreset(op):
         ctx.notes["draws"] = stub.n_draws
         depends_on_initial(ctx, "global-stream-after-the-operation-depends-on-the-stream-before-it", stub.term, s0)
         ctx.check("no-unseeded-entropy-source", z3.BoolVal(not stub.unseeded_entropy), detail=stub.unseeded_entropy)
+        ctx.check("private-generators-do-not-carry-state-across-operations", z3.BoolVal(not stub.stale_private_generator),
+                  detail=stub.stale_private_generator[:3])
         x = integer(ctx, "dummy", lo=0, hi=0)
         return stub.n_draws
 
@@ -219,6 +253,44 @@ def make_noreset(op):
                         h.predict(X)
                     elif op == "systematic-resample":
                         tools_mod.systematic_resample(8, np.full(8, 1 / 8))
+                    elif op == "hier-fit-twice":
+                        cents = []
+                        for _ in range(2):
+                            h = HierarchicalGaussianMixture(n_init=1, normalize=True)
+                            h.fit(X, w)
+                            cents.append(np.array(h.cluster_centers_))
+                        if label.startswith("private-generators"):
+                            # identical data, identical seeds: the two fits must coincide; spy on the private generators instead of the result
+                            created = []
+                            real_RS = np.random.RandomState
+
+                            class SpyRS(real_RS):
+                                def __init__(self, *a, **k):
+                                    created.append(self)
+                                    super().__init__(*a, **k)
+                            np.random.RandomState = SpyRS
+                            try:
+                                for _ in range(2):
+                                    HierarchicalGaussianMixture(n_init=1, normalize=True).fit(X, w)
+                            finally:
+                                np.random.RandomState = real_RS
+                            fits = 2 * 3
+                            np.random.seed = real_seed
+                            return {"reproduced": len(created) < fits, "signature": "private-generator-shared-across-fits",
+                                    "payload": {"private_generators_created": len(created), "inner_fits": fits},
+                                    "what": f"two hierarchical fits ran {fits} seeded inner fits but created only {len(created)} private generators: a generator is cached and "
+                                            "its position carries over from one fit (and one sampler run) to the next"}
+                    elif op.startswith("sampler-posterior"):
+                        np.random.seed = real_seed
+                        smp = Sampler(lambda u: u, lambda x: -0.5 * np.sum(((x - 0.5) / 0.1) ** 2, axis=1), n_dim=2, n_particles=32,
+                                      vectorize=True, clustering=False, n_steps=1, n_max_steps=2, random_state=(11 if "seeded" in op else None))
+                        smp._core._initialize_fresh()
+                        for _ in range(3):
+                            smp.sample()
+                        np.random.seed(sd)
+                        np.random.seed = spy_seed
+                        smp.posterior(resample=True)
+                        smp.posterior()
                     else:
                         clustering = "-clustering" in op
                         np.random.seed = real_seed
@@ -238,6 +310,9 @@ def make_noreset(op):
             np.random.seed = real_seed
             np.random.set_state(saved)
         same = outs[0] == outs[1]
+        if op.startswith("sampler-posterior") and seeds_seen:
+            return {"reproduced": True, "signature": "global-reseed:posterior-accessor", "payload": {"np.random.seed_calls": [str(x) for x in seeds_seen[:4]]},
+                    "what": f"Sampler.posterior(resample=True) called np.random.seed({seeds_seen[0]}): a read-only accessor resets the process-wide stream"}
         if op.startswith("sampler-iterations") and seeds_seen:
             return {"reproduced": True, "signature": f"global-reseed:sampler-iteration", "payload": {"np.random.seed_calls_during_iterations": [str(x) for x in seeds_seen[:6]]},
                     "what": f"during Sampler.sample() the library called np.random.seed with {sorted(set(map(str, seeds_seen)))} "
@@ -312,7 +387,8 @@ def make_seeding():
 
 def obligations(tier):
     ops = ["gmm-fit-default", "gmm-fit-random_state", "hier-fit-predict", "systematic-resample", "sampler-iterations-clustering-tpcn-mult",
-           "sampler-iterations-seeded-clustering-rwm-syst", "sampler-iterations-seeded-noclustering-tpcn-mult"]
+           "sampler-iterations-seeded-clustering-rwm-syst", "sampler-iterations-seeded-noclustering-tpcn-mult",
+           "hier-fit-twice", "sampler-posterior-seeded"]
     if tier == "thorough":
         ops += ["sampler-iterations-clustering-rwm-syst", "sampler-iterations-noclustering-tpcn-syst", "sampler-iterations-noclustering-rwm-mult",
                 "sampler-iterations-seeded-noclustering-tpcn-syst", "sampler-iterations-seeded-clustering-tpcn-mult"]
